@@ -259,6 +259,32 @@ def main(tier, seed):
         except Exception as e:
             rep.violation('smooth:exception:%s' % type(e).__name__, 'forward driver raises %r' % (e,), dict(kind='smooth', prog=prog, x=x.tolist(), exc=repr(e)))
 
+    # ---------------- array-valued programs (vector, matrix, 3-D results): y = reshape(C x + Q (x*x)), integer data, exact
+    n_a = 30 if tier == 'quick' else 400
+    for _ in range(n_a):
+        N = rng.randint(1, 4)
+        shp = rng.choice([(2,), (3,), (2, 3), (3, 2), (2, 2), (2, 2, 2), (3, 1, 2), (1, 3)])
+        M = int(numpy.prod(shp))
+        C = numpy.array([[rng.randint(-3, 3) for _ in range(N)] for _ in range(M)], dtype=float)
+        Q = numpy.array([[rng.randint(-2, 2) for _ in range(N)] for _ in range(M)], dtype=float)
+        x = numpy.array([rng.randint(-4, 4) for _ in range(N)], dtype=float); v = numpy.array([rng.randint(-3, 3) for _ in range(N)], dtype=float)
+        f = lambda z: ap.reshape(ap.dot(C, z) + ap.dot(Q, z * z), shp)
+        J = (C + 2 * Q * x[None, :]).reshape(shp + (N,))
+        meta = dict(driver='array-valued', result_shape=list(shp), N=N)
+        rep.count('driver', 'array-valued'); rep.count('array-valued:rank', len(shp))
+        rep.case(('array', shp, N, C.tobytes().hex(), Q.tobytes().hex(), x.tobytes().hex(), v.tobytes().hex()), True, sample=meta)
+        try:
+            gj = numpy.asarray(UTPM.extract_jacobian(f(UTPM.init_jacobian(x))))
+            gv = numpy.asarray(UTPM.extract_jac_vec(f(UTPM.init_jac_vec(x, v))))
+            if gj.shape != J.shape or not numpy.array_equal(gj, J):
+                rep.violation('array:extract_jacobian', 'extract_jacobian of a result of shape %s: shape %s, expected %s, or wrong entries' % (shp, gj.shape, J.shape),
+                              dict(kind='array', case=meta, C=C.tolist(), Q=Q.tolist(), x=x.tolist()))
+            if gv.shape != shp or not numpy.array_equal(gv, J @ v):
+                rep.violation('array:extract_jac_vec', 'extract_jac_vec of a result of shape %s: shape %s, or entries differ from J v' % (shp, gv.shape),
+                              dict(kind='array', case=meta, C=C.tolist(), Q=Q.tolist(), x=x.tolist(), v=v.tolist()))
+        except Exception as e:
+            rep.violation('array:exception:%s' % type(e).__name__, 'forward driver raises %r for a result of shape %s' % (e, shp), dict(kind='array', case=meta, exc=repr(e)))
+
     verdicts, logs = lib.eval_bool_cases(PID, IMPORTS, DEFS, terms, per_file=100)
     bad = 0
     for m, vd, t in zip(metas, verdicts, terms):
